@@ -45,6 +45,7 @@ func vpResetC01() {
 	vpBackendStopsReading = false
 	vpLookups = 0
 	vpBackendReads = nil
+	vpBackendGate = nil
 	vpStepTunnel, vpSeenTarget, vpSeenAddr = nil, "", ""
 	vpDialLog = nil
 	vpDialConns = nil
@@ -70,9 +71,13 @@ func vpDial(network, address string, timeout time.Duration) (net.Conn, error) {
 	if vpBackendReads != nil {
 		c.reads = append([][]byte{}, vpBackendReads...)
 	}
+	c.gate = vpBackendGate
 	vpDialConns = append(vpDialConns, c)
 	return c, nil
 }
+
+// vpBackendGate: the next dialled host stays quiet until this channel is closed.
+var vpBackendGate chan struct{}
 
 // Name resolution (for code that resolves the host itself): a name has one or two addresses, or does not
 // resolve; an address literal is its own single address.
